@@ -116,7 +116,7 @@ Qed.
 (* ---------- the messages handed to SendMsg ---------- *)
 Theorem gf_exec_sends : gf_exec_sends_stmt.
 Proof.
-  unfold gf_exec_sends_stmt. intros r i a Hi. split.
+  unfold gf_exec_sends_stmt. intros r i a Hi Hact. split.
   - destruct a as [|dst ack| |dst tp sel|dst tp|dst tp|iv off|dst ack lo up si|dst ack s1 s2 chg]; cbn [gf_exec action_pre action_msgs].
     + reflexivity.
     + rewrite send_ack_events, send_seq_one. reflexivity.
@@ -137,7 +137,7 @@ Proof.
     + unfold send_config_info_to. rewrite (chk_dev_in r i Hi). rewrite send_seq_one. destruct (rsend r _ i) as [[r1 ev] ok]. reflexivity.
     + set (r1 := if (iv =? 4294967295) && (off =? 65535) then r else set_heartbeat_all 1 r i iv off).
       assert (E: rn r1 = rn r) by (unfold r1; destruct (_ && _); [reflexivity|apply set_heartbeat_all_rn]).
-      unfold send_heartbeat_forced. rewrite (chk_dev_in r1 i) by (rewrite E; exact Hi). rewrite send_seq_one. destruct (rsend r1 _ i) as [[r2 ev] ok]. reflexivity.
+      unfold send_heartbeat_forced. rewrite E, (Hact iv off eq_refl). cbn [negb]. rewrite (chk_dev_in r1 i) by (rewrite E; exact Hi). rewrite send_seq_one. destruct (rsend r1 _ i) as [[r2 ev] ok]. reflexivity.
     + rewrite send_seq_one, <- send_ack_events. destruct (send_ack r i dst ack) as [r1 ev]. reflexivity.
     + destruct chg; rewrite send_ack_events, send_seq_one; reflexivity.
   - intros -> Hx. cbn [gf_exec fst]. unfold pend_claim.
